@@ -17,6 +17,7 @@ ID = "C20"
 RELABELS = {
     "str": {1: "a", 2: "b", 3: "c"},
     "str_rev": {1: "z", 2: "y", 3: "x"},
+    "str_len": {1: "a", 2: "bb", 3: "third"},          # labels of different lengths; the longest first seen in a partial_fit
     "float": {1: 1.5, 2: 0.5, 3: 0.25},
     "int_rev": {1: 30, 2: 20, 3: 10},
 }
